@@ -288,7 +288,11 @@ package bt
 //@ func bt.(*UTXO).LockingScriptHexString
 //@   requires (not (nil? (. u LockingScript)))
 //@ func bt.(*nodeTxWrapper).MarshalJSON
-//@   requires (not (nil? (. n Tx))) (spec.wf_tx_json (. n Tx))
+//@   requires (not (nil? (. n Tx))) (spec.wf_tx_json (. n Tx)) (spec.out_scripts_nonnil (. n Tx))
+// a transaction value holds no nil input/output entries and every output has a script (serialisation dereferences them)
+//@ func bt.(*Tx).MarshalJSON
+//@   opt nilrecv ok
+//@   requires (=> (not (nil? tx)) (and (spec.out_scripts_nonnil tx) (spec.inputs_nonnil tx)))
 //@ func bt.(*nodeOutputWrapper).MarshalJSON
 //@   requires (not (nil? (. n Output))) (not (nil? (. (. n Output) LockingScript))) (<= (. (. n Output) Satoshis) 2100000000000000)
 //@ func bt.(*nodeUTXOWrapper).MarshalJSON
@@ -338,7 +342,7 @@ package bt
 //@   ensures[C11.size_total] (= (. result TotalBytes) (old (spec.ser_len tx)))
 
 //@ func bt.(*Tx).IsFeePaidEnough
-//@   requires (spec.out_scripts_nonnil tx) (spec.inputs_nonnil tx)
+//@   requires (spec.out_scripts_nonnil tx) (spec.inputs_nonnil tx) (spec.outputs_nonnil tx)
 //@   requires (=> (not (nil? fees)) (spec.wf_quote fees))
 //@   requires (< (spec.sum_in tx) 18446744073709551616) (< (spec.sum_out tx) 18446744073709551616) (<= 0 (spec.sum_in tx)) (<= 0 (spec.sum_out tx))
 //@   requires (<= (spec.data_bytes tx) (spec.ser_len tx)) (<= (spec.ser_len tx) 2199023255552)
@@ -354,7 +358,8 @@ package bt
 //@   ensures[C11.estimate_fills_unlocking] (=> (= err nil) (forall ((k Int)) (=> (and (<= 0 k) (< k (len (. result Inputs)))) (and (not (nil? (. (at (. result Inputs) k) UnlockingScript))) (> (len (. (at (. result Inputs) k) UnlockingScript)) 0)))))
 //@   ensures[est_final_amounts] (=> (= err nil) (and (forall ((k Int)) (=> (and (<= 0 k) (< k (len (. result Inputs)))) (= (. (at (. result Inputs) k) PreviousTxSatoshis) (old (. (at (. tx Inputs) k) PreviousTxSatoshis))))) (forall ((k Int)) (=> (and (<= 0 k) (< k (len (. result Outputs)))) (= (. (at (. result Outputs) k) Satoshis) (old (. (at (. tx Outputs) k) Satoshis)))))))
 //@   loop 0 invariant (and (not (nil? tempTx)) (spec.clone_ok tempTx) (spec.out_scripts_ok tempTx) (= (len (. tempTx Inputs)) (len (. tx Inputs))) (= (len (. tempTx Outputs)) (len (. tx Outputs))))
-//@   loop 0 invariant (forall ((k Int)) (=> (and (<= 0 k) (<= k rangeindex) (< k (len (. tx Inputs)))) (and (not (nil? (old (. (at (. tx Inputs) k) PreviousTxScript)))) (not (nil? (. (at (. tempTx Inputs) k) UnlockingScript))) (> (len (. (at (. tempTx Inputs) k) UnlockingScript)) 0))))
+//@   loop 0 invariant (forall ((k Int)) (=> (and (<= 0 k) (<= k rangeindex) (< k (len (. tx Inputs)))) (not (nil? (old (. (at (. tx Inputs) k) PreviousTxScript))))))
+//@   loop 0 invariant (forall ((k Int)) (=> (and (<= 0 k) (<= k rangeindex) (< k (len (. tx Inputs)))) (and (not (nil? (. (at (. tempTx Inputs) k) UnlockingScript))) (> (len (. (at (. tempTx Inputs) k) UnlockingScript)) 0))))
 //@   loop 0 invariant (forall ((k Int)) (=> (and (<= 0 k) (< k (len (. tempTx Inputs)))) (and (= (. (at (. tempTx Inputs) k) PreviousTxScript) (old (. (at (. tx Inputs) k) PreviousTxScript))) (= (. (at (. tempTx Inputs) k) PreviousTxSatoshis) (old (. (at (. tx Inputs) k) PreviousTxSatoshis))) (not (nil? (. (at (. tempTx Inputs) k) UnlockingScript))))))
 //@   loop 0 invariant (forall ((k Int)) (=> (and (<= 0 k) (< k (len (. tempTx Outputs)))) (= (. (at (. tempTx Outputs) k) Satoshis) (old (. (at (. tx Outputs) k) Satoshis)))))
 
